@@ -42,6 +42,8 @@ def pmatch(pat, val) -> bool:
         if "$prefix" in pat:
             p = pat["$prefix"]
             return isinstance(val, list) and len(val) >= len(p) and all(pmatch(a, b) for a, b in zip(p, val))
+        if "$every" in pat:
+            return isinstance(val, list) and len(val) > 0 and all(pmatch(pat["$every"], e) for e in val)
         if "$has" in pat:
             return isinstance(val, list) and any(pmatch(pat["$has"], e) for e in val)
         if "$re" in pat:
